@@ -415,7 +415,9 @@ def gen_split_compounds(loader, check, replay_on=True):
             check.ob("split_compounds#ensures.nothing-lost", pi, pc, z3.Concat(r[0].t, inner2) == orig_wo_markers, replay=rp)
     # ground witness classes (nested braces, statement-expressions, empty rest): fully concrete, so verdicts never depend on solver search
     for p1, rest in (("a;", ""), ("if (x) { y; } z;", "c;"), ("{ }", "if (c) { d; }"), ("for (i = 0; i < 2; i++) { RdV = ({ x; }); }", "{ e; } f;"),
-                     ("P0 = cmp(RsV, (1, 2));", "if (P0) { JUMP(riV); }")):
+                     ("P0 = cmp(RsV, (1, 2));", "if (P0) { JUMP(riV); }"),
+                     # the rest starts with a block and ends with a brace but consists of several top-level items
+                     ("a;", "{ b; } { c; }"), ("a;", "{ b; } if (c) { d; }"), ("a;", " { b; } for (i = 0; i < 2; i++) { c; } ")):
         inst = f"ground part1={p1!r} rest={rest!r}"
         check.instances_declared += 1
 
@@ -663,12 +665,63 @@ def replay_compound(a):
         f"split_compounds({beh!r}) = ({p1!r}, {p2!r}); statements of the body without markers: {orig!r}"
 
 
+def gen_state(loader, check, replay_on=True):
+    """what is loaded depends only on the file: the loader keeps no class- or module-level mutable state that a second
+    PreprocessorHexagon (a second Compiler in the process) would inherit, and no memoisation"""
+    import ast
+    from .c14 import is_mutable_container_expr, init_closure_assigned
+    from pyvc.loader import _is_cache_decorator, ClassInfo, FuncInfo
+    m = loader.load(M_PP)
+    PP = m.globals["PreprocessorHexagon"]
+    bad = []
+    assigned = init_closure_assigned(PP)
+    for a, e in PP.attr_exprs.items():
+        if is_mutable_container_expr(e) and a not in assigned:
+            bad.append(f"class-level container PreprocessorHexagon.{a} is not re-bound in __init__")
+    for node in m.tree.body:
+        if isinstance(node, (ast.Assign, ast.AnnAssign)) and node.value is not None and is_mutable_container_expr(node.value):
+            bad.append(f"module-level container (line {node.lineno})")
+    for node in ast.walk(m.tree):
+        if isinstance(node, ast.Global):
+            bad.append(f"global statement (line {node.lineno})")
+        if isinstance(node, ast.FunctionDef) and any(_is_cache_decorator(d) for d in node.decorator_list):
+            bad.append(f"memoised function {node.name}")
+    rp = ("c19.two_instances", lambda mdl: {}) if replay_on else None
+    check.ob("load_insn_behavior#reads: no class-/module-level mutable state or memoisation in PreprocessorHexagon.py", "PreprocessorHexagon.py", [], not bad,
+             replay=rp, detail="; ".join(bad))
+    check.instances_declared += 1
+    check.instances_generated += 1
+
+
+@replay.register("c19.two_instances")
+def replay_two_instances(a):
+    import tempfile
+    from rzilcompiler.Preprocessor.Hexagon.PreprocessorHexagon import PreprocessorHexagon
+    from rzilcompiler.Configuration import Conf
+    lines = "insn(A_one, { RdV = RsV; })\ninsn(B_two, { RdV = RtV; })\n"
+    with tempfile.NamedTemporaryFile("w", suffix=".h", delete=False) as fh:
+        fh.write(lines)
+        path = fh.name
+    orig = Conf.get_path
+    try:
+        Conf.get_path = staticmethod(lambda *args, **kw: __import__("pathlib").Path(path))
+        res = []
+        for _ in range(2):
+            pp = PreprocessorHexagon(path)
+            pp.load_insn_behavior()
+            res.append(dict(pp.behaviors))
+    finally:
+        Conf.get_path = orig
+        os.unlink(path)
+    return res[0] != res[1], f"first instance loads {sorted(res[0])}, a second instance in the same process loads {sorted(res[1])}"
+
+
 def gen_task(loader, check, what, replay_on=True):
-    {"line": gen_split_line, "compound": gen_split_compounds, "load": gen_load, "corpus": gen_corpus}[what](loader, check, replay_on)
+    {"line": gen_split_line, "compound": gen_split_compounds, "load": gen_load, "corpus": gen_corpus, "state": gen_state}[what](loader, check, replay_on)
 
 
 def generate_reduced(loader, check):
-    for w in ("line", "compound", "load", "corpus"):
+    for w in ("line", "compound", "load", "corpus", "state"):
         gen_task(loader, check, w, False)
 
 
@@ -680,7 +733,7 @@ def run(check: Check):
                 "Because the contracts prove the decomposition unique, greedy/lazy backtracking order is irrelevant.")
     check.assume("strings range over ASCII (the bundled file is ASCII); BODY contains no newline; compound bodies contain exactly two markers")
     check.assume("the string obligations are discharged by cvc5 (--strings-exp) when z3's sequence solver answers unknown")
-    check.run_parallel("contracts.c19", "gen_task", [{"what": w} for w in ("line", "compound", "load", "corpus")], workers=WORKERS)
+    check.run_parallel("contracts.c19", "gen_task", [{"what": w} for w in ("line", "compound", "load", "corpus", "state")], workers=WORKERS)
     run_mutants(check, MUTANTS, "contracts.c19", "generate_reduced")
     return check.finish(
         level="proof",
